@@ -193,7 +193,6 @@ var rR9 = RuleRef{Name: "R9", Doc: "key/argument identity: the key operand of ev
 	c.Min("R9_value_operands", 60)
 }}
 
-
 // modeParam: the parameter is only ever compared with constants (a direction or mode selector, never stored or emitted).
 func modeParam(p *ssa.Parameter) bool {
 	if p.Referrers() == nil || len(*p.Referrers()) == 0 {
@@ -217,7 +216,6 @@ func modeParam(p *ssa.Parameter) bool {
 	}
 	return true
 }
-
 
 // returnsAParam: some returned value of fn derives from one of its non-receiver parameters.
 func returnsAParam(fn *ssa.Function) bool {
